@@ -253,7 +253,9 @@ ProjRhs(ts, i, p, m) ==
   \* expression "[" multi-select "]"; that needs a dot)
   ELSE IF k = "lbracket" /\ ~(K(ts, i + 1) \in {"int", "colon"} \/ IsStarBracket(ts, i, m)) THEN PFail
   ELSE IF k \in {"lbracket", "filter"} THEN Expr(ts, i, p, m)
-  ELSE IF k = "dot" THEN DotRhs(ts, i + 1, p, m)
+  \* x[*].rhs  applies  @.rhs  to every element: a sub-expression on the element, which is null for a null
+  \* element whatever rhs is (a field, a function call, a multi-select)
+  ELSE IF k = "dot" THEN LET r == DotRhs(ts, i + 1, p, m) IN IF ~r.ok THEN PFail ELSE POk(Sub(Cur, r.n), r.i)
   ELSE PFail
 
 \* what may follow a "." ; i is the token after the dot
